@@ -1,4 +1,5 @@
 import LopdfModel.Lemmas.Edit
+import LopdfModel.Lemmas.DictNoDup
 /-
   Helper lemmas for C11: stream `Length` consistency (`LenOK`, `LenInv`) through the traversal
   (tame actions), the move passes, and every editing operation; get-level description of
@@ -7,20 +8,44 @@ import LopdfModel.Lemmas.Edit
 namespace Lopdf.Ed
 open Lopdf
 
-/-- a stream's `Length` entry is the length of the content it stores -/
+/-- a stream's dictionary has pairwise distinct keys (it is an `IndexMap`) and its `Length` entry is the
+length of the content it stores -/
 def LenOK : Obj → Prop
-  | .stream d c => Dict.get d LENGTHE = some (.int c.length)
+  | .stream d c => DictL.NoDup d ∧ Dict.get d LENGTHE = some (.int c.length)
   | _ => True
 
 /-- every stream object of the document has a consistent `Length` -/
 def LenInv (d : Doc) : Prop := ∀ k o, d.objects.get k = some o → LenOK o
 
-/-- actions that leave streams' own dictionaries and integers alone and never turn a non-stream into a
-stream (all three actions lopdf passes to `traverse_objects`) -/
+/-- actions that keep a stream a stream with the same content, keep its dictionary's keys distinct and its
+integer `Length`, leave integers alone and never turn a non-stream into a stream (all actions lopdf passes to
+`traverse_objects`) -/
 structure Tame (a : Action) : Prop where
-  stream : ∀ d c, a.f (.stream d c) = .stream d c
+  stream : ∀ d c, ∃ d', a.f (.stream d c) = .stream d' c ∧
+    (DictL.NoDup d → DictL.NoDup d' ∧ ∀ i, Dict.get d LENGTHE = some (.int i) → Dict.get d' LENGTHE = some (.int i))
   int : ∀ i, a.f (.int i) = .int i
-  only : ∀ o d c, a.f o = .stream d c → o = .stream d c
+  only : ∀ o d' c, a.f o = .stream d' c → ∃ d, o = .stream d c
+
+/-- removing keys one after the other: any key that is not removed keeps its value; keys stay distinct -/
+theorem get_removeKeys {d : Dict} (hn : DictL.NoDup d) (ks : List Bytes) (q : Bytes) (hq : q ∉ ks) :
+    Dict.get (removeKeys d ks) q = Dict.get d q ∧ DictL.NoDup (removeKeys d ks) := by
+  induction ks generalizing d with
+  | nil => exact ⟨rfl, hn⟩
+  | cons k rest ih =>
+    simp only [List.mem_cons, not_or] at hq
+    simp only [removeKeys, List.foldl_cons]
+    have := ih (DictL.nodup_remove hn k) hq.2
+    refine ⟨?_, this.2⟩
+    have h1 := this.1
+    simp only [removeKeys] at h1
+    rw [h1, DictL.get_remove hn k q]
+    have : ¬ k = q := fun e => hq.1 e.symm
+    simp [this]
+
+theorem nodup_removeKeys {d : Dict} (hn : DictL.NoDup d) (ks : List Bytes) : DictL.NoDup (removeKeys d ks) := by
+  induction ks generalizing d with
+  | nil => exact hn
+  | cons k rest ih => simp only [removeKeys, List.foldl_cons]; exact ih (DictL.nodup_remove hn k)
 
 theorem dictGet_deepDict (a : Action) (d : Dict) (k : Bytes) :
     Dict.get (deepDict a d) k = (Dict.get d k).map (deepObj a) := by
@@ -31,32 +56,42 @@ theorem dictGet_deepDict (a : Action) (d : Dict) (k : Bytes) :
     rw [deepDict]; simp only [Dict.get]
     split <;> simp [ih]
 
+theorem keys_deepDict (a : Action) (d : Dict) : (deepDict a d).map (·.1) = d.map (·.1) := by
+  induction d with
+  | nil => rw [deepDict]
+  | cons p rest ih => obtain ⟨k0, v0⟩ := p; rw [deepDict]; simp [ih]
+
 theorem lenOK_deep (a : Action) (ht : Tame a) (o : Obj) (h : LenOK o) : LenOK (deepObj a o) := by
   cases hf : a.f o with
   | arr items => rw [deepObj_arr hf]; trivial
   | dict es => rw [deepObj_dict hf]; trivial
   | stream es c =>
     rw [deepObj_stream hf]
-    have := ht.only o es c hf; subst this
+    obtain ⟨d, hd⟩ := ht.only o es c hf; subst hd
+    obtain ⟨d', e1, e2⟩ := ht.stream d c
+    rw [hf] at e1; cases e1
     simp only [LenOK] at h ⊢
-    rw [dictGet_deepDict, h]
+    obtain ⟨n1, n2⟩ := e2 h.1
+    refine ⟨by unfold DictL.NoDup; rw [keys_deepDict]; exact n1, ?_⟩
+    rw [dictGet_deepDict, n2 _ h.2]
     simp only [Option.map_some]
     rw [deepObj_other] <;> simp [ht.int]
   | _ =>
     rw [deepObj_other (by simp [hf]) (by simp [hf]) (by simp [hf]), hf]; trivial
 
-theorem tame_id : Tame idAct := ⟨fun _ _ => rfl, fun _ => rfl, fun _ _ _ h => h⟩
+theorem tame_id : Tame idAct :=
+  ⟨fun d c => ⟨d, rfl, fun h => ⟨h, fun _ e => e⟩⟩, fun _ => rfl, fun o d c h => ⟨d, h⟩⟩
 theorem tame_rename (m : List (ObjId × ObjId)) : Tame (renameAct m) := by
-  refine ⟨fun _ _ => rfl, fun _ => rfl, ?_⟩
+  refine ⟨fun d c => ⟨d, rfl, fun h => ⟨h, fun _ e => e⟩⟩, fun _ => rfl, ?_⟩
   intro o d c h
   cases o <;> simp [renameAct, renameFn] at h ⊢
-  · exact h
+  · exact h.2
   · split at h <;> cases h
 theorem tame_del (id : ObjId) : Tame (delAct id) := by
-  refine ⟨fun _ _ => rfl, fun _ => rfl, ?_⟩
+  refine ⟨fun d c => ⟨d, rfl, fun h => ⟨h, fun _ e => e⟩⟩, fun _ => rfl, ?_⟩
   intro o d c h
   cases o <;> simp [delAct, delFn] at h ⊢
-  exact h
+  exact h.2
 
 theorem lenInv_traverse (a : Action) (ht : Tame a) (tr : Dict) (os : Objects)
     (h : ∀ k o, os.get k = some o → LenOK o) : ∀ k o, (traverse a tr os).2.1.get k = some o → LenOK o := by
@@ -85,8 +120,10 @@ theorem dictGetSet (d : Dict) (k : Bytes) (v : Obj) (q : Bytes) :
 
 theorem klength_eq : Gen.K_LENGTH = LENGTHE := by decide
 
-theorem lenOK_setContent (s : Strm) (c : Bytes) : LenOK (.stream (setContent s c).dict (setContent s c).content) := by
-  simp [LenOK, setContent, klength_eq, dictGetSet, lenObj]
+theorem lenOK_setContent (s : Strm) (c : Bytes) (hn : DictL.NoDup s.dict) :
+    LenOK (.stream (setContent s c).dict (setContent s c).content) := by
+  refine ⟨DictL.nodup_set hn _ _, ?_⟩
+  simp [setContent, klength_eq, dictGetSet, lenObj]
 
 theorem lenOK_compress (f : Bytes → Bytes) (d : Dict) (c : Bytes) (h : LenOK (.stream d c)) :
     LenOK (.stream (compress f ⟨d, c⟩).dict (compress f ⟨d, c⟩).content) := by
@@ -95,10 +132,15 @@ theorem lenOK_compress (f : Bytes → Bytes) (d : Dict) (c : Bytes) (h : LenOK (
   · exact h
   · simp only
     split
-    · exact lenOK_setContent _ _
+    · exact lenOK_setContent _ _ (DictL.nodup_set (DictL.nodup_remove h.1 _) _ _)
     · exact h
 
-theorem lenOK_decompress (ext : Ext) (d : Dict) (c : Bytes) (s : Strm) (h : decompress ext ⟨d, c⟩ = .ok s) :
+theorem nodup_removeKeysSeq (d : Dict) (ks : List Bytes) (hn : DictL.NoDup d) : DictL.NoDup (removeKeysSeq d ks) := by
+  induction ks generalizing d with
+  | nil => exact hn
+  | cons k rest ih => simp only [removeKeysSeq]; exact ih _ (DictL.nodup_remove hn k)
+
+theorem lenOK_decompress (ext : Ext) (d : Dict) (c : Bytes) (s : Strm) (hn : DictL.NoDup d) (h : decompress ext ⟨d, c⟩ = .ok s) :
     LenOK (.stream s.dict s.content) := by
   unfold decompress at h
   cases hd : decompressedContent ext ⟨d, c⟩ with
@@ -106,7 +148,7 @@ theorem lenOK_decompress (ext : Ext) (d : Dict) (c : Bytes) (s : Strm) (h : deco
     rw [hd] at h
     simp only [Outcome.map] at h
     cases h
-    exact lenOK_setContent _ _
+    exact lenOK_setContent _ _ (nodup_removeKeysSeq _ _ hn)
   | err e => rw [hd] at h; simp [Outcome.map] at h
   | panic e => rw [hd] at h; simp [Outcome.map] at h
 
@@ -161,7 +203,7 @@ theorem lenOK_compressObj (f : Bytes → Bytes) (al : ObjId → Bool) (id : ObjI
 theorem lenOK_decompressObj (ext : Ext) (o : Obj) (h : LenOK o) : LenOK (decompressObj ext o) := by
   cases o <;> simp only [decompressObj] <;> try exact h
   split
-  · rename_i s hs; exact lenOK_decompress ext _ _ s hs
+  · rename_i s hs; exact lenOK_decompress ext _ _ s h.1 hs
   · exact h
 
 /-- frame: `compress` / `decompress` touch nothing but stream objects -/
@@ -348,7 +390,7 @@ theorem lenInv_addObject (d : Doc) (o : Obj) (h : LenInv d) (ho : LenOK o) : Len
   valsOK_insert _ _ _ h ho
 
 theorem lenOK_streamNew (c : Bytes) : LenOK (streamNew [] c) := by
-  simp [streamNew, LenOK, Dict.set, Dict.get]
+  simp [streamNew, LenOK, Dict.set, Dict.get, DictL.NoDup]
 
 theorem lenInv_setDictEntry (d : Doc) (id : ObjId) (key : Bytes) (v : Obj) (h : LenInv d) : LenInv (setDictEntry d id key v).1 := by
   unfold setDictEntry
@@ -442,16 +484,22 @@ theorem lenInv_addGraphicsState (d : Doc) (pg : ObjId) (name : Bytes) (gid : Obj
       · exact h1
     · exact h1
 
-theorem lenOK_plainThenCompress (deflated : Bytes) (dict : Dict) (c : Bytes) : LenOK (plainThenCompress deflated dict c) := by
+theorem lenOK_plainThenCompress (deflated : Bytes) (dict : Dict) (c : Bytes) (hn : DictL.NoDup dict) :
+    LenOK (plainThenCompress deflated dict c) := by
   unfold plainThenCompress
   simp only
-  split <;> simp [LenOK, dictGetSet]
+  have h1 : DictL.NoDup (Dict.set (Dict.remove (Dict.remove dict kDecodeParms) kFilter) LENGTHE (.int c.length)) :=
+    DictL.nodup_set (DictL.nodup_remove (DictL.nodup_remove hn _) _) _ _
+  split
+  · exact ⟨DictL.nodup_set (DictL.nodup_set (DictL.nodup_remove h1 _) _ _) _ _, by simp [dictGetSet]⟩
+  · exact ⟨h1, by simp [dictGetSet]⟩
 
 theorem lenInv_changeContentStream (f : Bytes → Bytes) (d : Doc) (sid : ObjId) (c : Bytes) (h : LenInv d) :
     LenInv (changeContentStream f d sid c) := by
   unfold changeContentStream
   split
-  · exact lenInv_setObj d _ _ h (lenOK_plainThenCompress _ _ _)
+  · rename_i dict _ hg
+    exact lenInv_setObj d _ _ h (lenOK_plainThenCompress _ _ _ (h sid _ hg).1)
   · exact h
 
 theorem lenInv_changePageContent (f : Bytes → Bytes) (d : Doc) (pg : ObjId) (c : Bytes) (h : LenInv d) (d' : Doc) (out : Out)
